@@ -999,8 +999,146 @@ def plain_view(cfg):
     return walk(cfg)
 
 
+def retries_ctor_and_env_stream(ctx, res):
+    """(a) a save that is REFUSED because the key file cannot be created (its directory does not exist yet), the obstacle removed, the
+    save repeated on the same configuration: every secret of the saved document opens with the key that is in the key file;
+    (b) a configuration (root and config type) names its key file BEFORE it takes constructor values and defaults: an application field
+    that seals with `cfg._keyfile` while it validates / defaults works under the configuration's own key file, and the default key
+    file is not touched; (c) a secret field that declares a default AND is bound to an environment variable: the variable wins at
+    construction, the stored secret is not replaced by the declared default on load, and a re-save keeps it"""
+    import base64
+    import cincoconfig as cc
+    from cincoconfig.encryption import KeyFile, SecureValue
+    tmp = ctx.tmpdir()
+    home = os.environ.get("HOME", "")
+    n = [0]
+
+    def opens(keypath, stored):
+        try:
+            with KeyFile(keypath) as kf:
+                return kf.decrypt(SecureValue(stored["method"], base64.b64decode(stored["ciphertext"])))
+        except Exception as e:  # noqa
+            return "raised %s" % type(e).__name__
+    # (a)
+    for method in ("aes", "xor"):
+        n[0] += 1
+        d = os.path.join(tmp, "later-%d" % n[0])
+        kp = os.path.join(d, "app.key")
+        s = cc.Schema()
+        s.db.password = cc.SecureField(method=method)
+        s.api = cc.SecureField(method=method)
+        cfg = s(key_filename=kp)
+        cfg.db.password = "first-secret"
+        cfg.api = "second-secret"
+        case = {"stream": "refused-then-retried", "method": method}
+        res.case(stable(case), kind="refused-then-retried")
+        try:
+            cfg.dumps(format="json")
+            refused = False
+        except Exception:  # noqa
+            refused = True
+        os.makedirs(d, exist_ok=True)
+        try:
+            tree = cfg.to_tree()
+            got = [opens(kp, tree["db"]["password"]), opens(kp, tree["api"])]
+            fresh = s(key_filename=kp)
+            fresh.loads(cfg.dumps(format="json"), format="json")
+            got2 = [fresh.db.password, fresh.api]
+        except Exception as e:  # noqa
+            got, got2 = "raised %s" % type(e).__name__, None
+        if got != [b"first-secret", b"second-secret"] or got2 != ["first-secret", "second-secret"]:
+            res.violate("C03:wrong-key:after-refused-save", "after a save that was refused (the key file could not be created) and a retry, a secret of the saved document does not open "
+                        "with the key that is in the key file", dict(case, first_save_refused=refused, got=repr(got)[:120], reloaded=repr(got2)[:80]))
+    # (b)
+    class SealedField(cc.Field):
+        """an application field that seals its value with the configuration's key file while validating"""
+        storage_type = str
+
+        def _validate(self, cfg, value):
+            if isinstance(value, dict):
+                return value
+            with cfg._keyfile as kf:
+                sv = kf.encrypt(str(value), method="xor")
+            return {"method": sv.method, "ciphertext": base64.b64encode(sv.ciphertext).decode()}
+
+    class GeneratedSealedField(SealedField):
+        def __setdefault__(self, cfg):
+            cfg._set_default_value(self._key, self._validate(cfg, "generated-session-key"))
+    default_key = os.path.join(home, ".cincokey")
+    for where in ("root", "config-type", "list-item"):
+        n[0] += 1
+        kp = os.path.join(tmp, "ctor-%d.key" % n[0])
+        with open(kp, "wb") as fp:
+            fp.write(os.urandom(32))
+        acct = cc.Schema()
+        acct.name = cc.StringField(default="n")
+        acct.token = SealedField()
+        acct.session = GeneratedSealedField()
+        stamp = open(default_key, "rb").read() if os.path.exists(default_key) else None
+        case = {"stream": "key-file-before-values", "where": where}
+        res.case(stable(case), kind="key-file-before-values")
+        try:
+            if where == "root":
+                obj = acct(key_filename=kp, name="a", token="ctor-token")
+            else:
+                Account = cc.make_type(acct, "SealedAccount%d" % n[0], key_filename=kp)
+                obj = Account(name="a", token="ctor-token")
+                if where == "list-item":
+                    root = cc.Schema()
+                    root.accounts = cc.ListField(Account, default=lambda: [])
+                    rc = root(key_filename=os.path.join(tmp, "ctor-root-%d.key" % n[0]))
+                    rc.accounts = [obj]
+                    obj = rc.accounts[0]
+            got = [opens(kp, obj.token), opens(kp, obj.session)]
+        except Exception as e:  # noqa
+            got = "raised %s: %s" % (type(e).__name__, str(e)[:80])
+        now = open(default_key, "rb").read() if os.path.exists(default_key) else None
+        if got != [b"ctor-token", b"generated-session-key"]:
+            res.violate("C03:wrong-key:constructor-values", "a value sealed while a configuration was being constructed (a constructor keyword, a generated default) is not under the key file "
+                        "the configuration names", dict(case, got=repr(got)[:120]))
+        elif now != stamp:
+            res.violate("C03:default-key-touched", "constructing a configuration that names its key file created / changed the default key file", case)
+    # (c)
+    for binding in ("named", "prefix"):
+        for method in ("aes", "xor"):
+            n[0] += 1
+            kp = os.path.join(tmp, "env-%d.key" % n[0])
+            with open(kp, "wb") as fp:
+                fp.write(os.urandom(32))
+            var = "CINCO_T_C03E_PASSWORD" if binding == "named" else "CINCO_T_C03E_DB_PASSWORD"
+            s = cc.Schema(env="CINCO_T_C03E") if binding == "prefix" else cc.Schema()
+            s.db.password = cc.SecureField(method=method, default="changeme", **({"env": var} if binding == "named" else {}))
+            s.api_token = cc.SecureField(method=method)
+            os.environ.pop(var, None)
+            writer = s(key_filename=kp)
+            writer.db.password = "real-secret"
+            writer.api_token = "tok"
+            doc = writer.dumps(format="json")
+            os.environ[var] = "from-environment"
+            case = {"stream": "default-and-variable", "binding": binding, "method": method}
+            res.case(stable(case), kind="default-and-variable")
+            try:
+                reader = s(key_filename=kp)
+                at_build = reader.db.password
+                reader.loads(doc, format="json")
+                after_load = reader.db.password
+                doc2 = reader.dumps(format="json")
+                os.environ.pop(var, None)
+                third = s(key_filename=kp)
+                third.loads(doc2, format="json")
+                resaved = third.db.password
+            except Exception as e:  # noqa
+                at_build = after_load = resaved = "raised %s" % type(e).__name__
+            finally:
+                os.environ.pop(var, None)
+            if at_build != "from-environment" or after_load != "from-environment" or resaved != "from-environment" or reader.api_token != "tok":
+                res.violate("C03:reload-differs:default-and-variable", "a secret field that declares a default and is bound to a set variable does not hold the variable (the declared "
+                            "default took its place at construction or after a load, and a re-save then wrote it over the stored secret)",
+                            dict(case, at_construction=at_build, after_load=after_load, after_resave=resaved))
+
 def run(ctx, n_quick=150, n_thorough=4000):
     res = Result()
+    guard(res, "C03", retries_ctor_and_env_stream, ctx, res)
     guard(res, "C03", rehome_stream, ctx, res, ctx.n(30, 800))
     guard(res, "C03", history_stream, ctx, res)
     guard(res, "C03", adopted_and_copied_stream, ctx, res)
